@@ -24,6 +24,21 @@ from typing import Any
 from .model import Class, Module, Program, real_body, u
 
 
+def _expand_dict_keywords(e: ast.Call) -> ast.Call:
+    """f(**{"a": x, "b": y}) is f(a=x, b=y)  (string keys that are identifiers, written out in the display)"""
+    kws = []
+    for k in e.keywords:
+        if k.arg is None and isinstance(k.value, ast.Dict) and all(isinstance(x, ast.Constant) and isinstance(x.value, str) and x.value.isidentifier() for x in k.value.keys):
+            kws += [ast.keyword(arg=x.value, value=v) for x, v in zip(k.value.keys, k.value.values)]
+        else:
+            kws.append(k)
+    names = [k.arg for k in kws if k.arg is not None]
+    if len(names) != len(set(names)):
+        return e
+    new = ast.Call(func=e.func, args=e.args, keywords=kws)
+    return ast.copy_location(new, e)
+
+
 class Opaque(Exception):
     pass
 
@@ -687,6 +702,8 @@ class NF:
 
     # ------------------------------------------------------------------ calls
     def call(self, e: ast.Call, env: Env):
+        if any(k.arg is None and isinstance(k.value, ast.Dict) for k in e.keywords):
+            e = _expand_dict_keywords(e)
         f = e.func
         fs = u(f)
         # --- builtins / repo helpers
@@ -917,6 +934,12 @@ class NF:
                 i += 1
             for k in e.keywords:
                 if k.arg is None:
+                    d = self.ev(k.value, env)
+                    if d[0] == "dict" and all(kk[0] == "const" and isinstance(kk[1], str) and kk[1] not in kw for kk, _ in d[1]):
+                        # Model(**{"a": x, "b": y}) (the display possibly built by a helper): keyword arguments written out
+                        for kk, vv in d[1]:
+                            kw[kk[1]] = vv
+                        continue
                     return ("call", cls.qualname, tuple(self.ev(a, env) for a in e.args if not isinstance(a, ast.Starred)),
                             tuple(("**" if x.arg is None else x.arg, self.ev(x.value, env)) for x in e.keywords))
                 kw[k.arg] = self.ev(k.value, env)
